@@ -29,10 +29,48 @@ def build(tier):
     src = e1.make_module(PRELUDE, "h", "new: str, explicit: bool", ["1 <= len(new) <= 2 and '/' not in new and '=' not in new"],
                          "return makegateway_leaves_no_process([], new, explicit, 0, reuse_spec=True)\n")
     obs.append(Obligation(name="makegateway_same_spec_object_twice", module_src=src, fn="h", timeout=t, meta={"live": 0, "kind": 0}))
+    # Group.terminate's own loop (exit order of proxied members, rounds, emptiness) with safe_terminate replaced by a recorder
+    for nw in ((1, 2, 3) if thorough else (1, 2)):
+        params = ", ".join(f"v{k}: bool" for k in range(nw)) + ", tg: bool"
+        src = e1.make_module(PRELUDE, "h", params, [], f"return group_terminate_ok([{', '.join(f'v{k}' for k in range(nw))}], tg)\n")
+        obs.append(Obligation(name=f"terminate_loop_{nw}workers", module_src=src, fn="h", timeout=t, meta={"live": nw, "kind": "terminate"}))
     # an automatic id that is already taken by an explicitly named live gateway ("gw0")
     src = e1.make_module(PRELUDE, "h", "k: int", ["0 <= k <= 2"], "return makegateway_leaves_no_process(['gw0', 'gw1'][:k], 'x', False, 0)\n")
     obs.append(Obligation(name="makegateway_autoid_taken", module_src=src, fn="h", timeout=t, meta={"live": "gw0/gw1", "kind": 0}))
     return obs
+
+
+def sc_safe_terminate(pairs=(("exits", "kills"),), timeout=1):
+    from vlib import e2
+    import z3
+    from vlib.py2ts import INT0
+
+    sc = e2.TerminateScenario([tuple(p) for p in pairs], timeout)
+    n = len(pairs)
+    bound = (2 * n + 3) * timeout
+    sc.bad += [
+        ("blocked", "caller"), ("uncaught", "caller", []),
+        ("custom", "slower_than_a_small_multiple_of_the_timeout", lambda enc, K: z3.Or([z3.UGT(enc.var(i, "G.clock"), INT0 + bound) for i in range(K + 1)]), lambda g, d, b: g.get("clock", 0) > bound),
+    ]
+    for k, (term, kill) in enumerate(pairs):
+        if term != "exits":
+            # a member that did not come down in time must be killed
+            sc.bad.append(("custom", f"not_killed:{k}", (lambda k: lambda enc, K: z3.And(z3.Not(enc.can_move(K)), enc.var(K, f"G.kill_called{k}") != INT0 + 1))(k),
+                           (lambda k: lambda g, d, b: g.get(f"kill_called{k}", 0) != 1)(k)))
+        else:
+            sc.bad.append(("custom", f"killed_though_down:{k}", (lambda k: lambda enc, K: z3.Or([enc.var(i, f"G.kill_called{k}") == INT0 + 1 for i in range(K + 1)]))(k),
+                           (lambda k: lambda g, d, b: g.get(f"kill_called{k}", 0) == 1)(k)))
+        sc.observed += [f"term_called{k}", f"term_done{k}", f"kill_called{k}", f"killed{k}"]
+    sc.observed += ["returned"]
+    return sc
+
+
+def e2_specs(tier):
+    thorough = tier == "thorough"
+    singles = [(("exits", "kills"),), (("hangs", "kills"),), (("hangs", "kill_hangs"),), (("stuck", "kills"),)]
+    doubles = [(("exits", "kills"), ("hangs", "kills")), (("hangs", "kill_hangs"), ("exits", "kills"))] if thorough else []
+    return [{"module": "props.c05", "factory": "sc_safe_terminate", "args": {"pairs": p, "timeout": 1}, "K": 0, "name": f"safe_terminate{list(p)}",
+             "timeout": 6000 if thorough else 900, "validate": 2, "depth_probes": 200, "sync_granularity": True} for p in singles + doubles]
 
 
 def signature(o, cex, detail):
@@ -41,18 +79,36 @@ def signature(o, cex, detail):
 
 def run(tier: str) -> Outcome:
     fns = describe_functions([multi.Group.makegateway, multi.Group.allocate_id, multi.Group._register, multi.Group.__contains__, multi.Group.__getitem__])
-    return e1.run_e1(
+    from vlib import e2run
+
+    e2out = e2run.outcome_from("C05", tier, e2run.run_scenarios(e2_specs(tier)), describe_functions([multi.safe_terminate]), [], "", [], "", "C05")
+    out = e1.run_e1(
         "C05", tier, build(tier), signature, fns,
         stubs=["gateway_io.create_io -> RecordedProcessIO (creation = a child process started; kill()/wait() recorded); gateway_bootstrap.bootstrap -> a plain gateway object",
                "multi.atexit.register is a no-op; sys.stderr of gateway_base swallowed"],
         bounds=("0-2 (thorough 3) live members with symbolic ids (len<=2), the requested id symbolic (explicit or automatic), popen / ssh / popen//python= specs"),
-        outside=["part (a) of the statement - terminate(timeout) returning promptly and killing every remaining child - is NOT decided by this check: safe_terminate's "
-                 "nested closures/partials are outside the E2 translator's subset and the remote program / signal behaviour is the operating system's",
+        outside=["what real remote interpreters do with GATEWAY_TERMINATE, signals, SIGSTOP etc.: a member is a stub that comes down, comes down only when killed, or never",
+                 "terminate(timeout=None) (unbounded by design); more than 2 members in the safe_terminate scenarios",
                  "failures inside create_io / bootstrap themselves", "via= and socket= gateways"],
         explanation=("bounded symbolic execution of the real Group.makegateway / allocate_id / _register with process creation replaced by a recording stub: on every path "
-                     "on which makegateway raises, no process record created by that call is left un-killed, and the group is unchanged; on success ids are unique"),
+                     "on which makegateway raises, no process record created by that call is left un-killed, and the group is unchanged; on success ids are unique; "
+                     "Group.terminate's loop with safe_terminate replaced by a recorder: every member exits once, proxied members a round before their via gateway, "
+                     "the group ends empty; E2 (bounded model checking, context switches at synchronisation operations): the real safe_terminate over the real "
+                     "WorkerPool with term/kill stubs (member comes down / only after kill / never; kill works / kill itself hangs): it returns in every schedule, "
+                     "within (2n+3) x timeout of model time, kills exactly the members that did not come down"),
     )
+    e2run.merge_into(out, e2out, "e2_safe_terminate",
+                     "E2 part: a member's join+wait either returns, returns only after kill(), or never; kill() takes effect or hangs; a finite timeout fires only when no thread can "
+                     "take another step; what real interpreters do with signals is outside")
+    return out
 
 
 def replay(rep):
+    if rep.get("engine") == "E2":
+        from vlib import e2run
+
+        sc = sc_safe_terminate(**rep["scenario"]["args"])
+        ghost, done, blocked, sched = sc.replay([tuple(x) for x in rep["order"]], mode=rep.get("mode", "sync"))
+        hits = e2run.real_bad(sc.bad, ghost, done, blocked)
+        return bool(hits) and not sched.diverged, f"hits={hits} ghost={ghost} blocked={blocked} diverged={sched.diverged}"
     return e1.replay_entry(rep)
